@@ -53,7 +53,7 @@ func request(c M) (structs.MessageType, any) {
 	if str(c["t"]) == "creg" {
 		req := &structs.RegisterRequest{Datacenter: "dc1", Node: str(c["node"]), Address: str(c["addr"])}
 		if boolean(c["hassvc"]) {
-			req.Service = &structs.NodeService{ID: str(c["sid"]), Service: str(c["sname"]), Port: num(c["port"])}
+			req.Service = &structs.NodeService{ID: str(c["sid"]), Service: str(c["sname"]), Port: num(c["port"]), Tags: []string{"t1"}}
 		}
 		if boolean(c["haschk"]) {
 			req.Check = &structs.HealthCheck{Node: str(c["node"]), CheckID: types.CheckID(str(c["cid"])), Name: "check " + str(c["cid"]),
@@ -419,6 +419,104 @@ func random(seed int64, n, length int, out string) {
 	fmt.Printf("{\"behaviours\":%d,\"events\":%d,\"nq\":%d}\n", n, rec.events, len(qs))
 }
 
+// scale: one service with n instances (one per node, each with a service check) - more than a third of the state
+// store's watch limit, where reads switch from per-row to table-wide watch channels - then single changes deep inside
+// the instance list, each observed by the reads that carry the big result. Observations only (no model conformance:
+// the state is far outside the model's universe); judged by the C06 predicates of CatIndexTrace.
+func scale(n int, out string) {
+	f, err := os.Create(out)
+	if err != nil {
+		fatal("%v", err)
+	}
+	defer f.Close()
+	rec := &recorder{w: bufio.NewWriterSize(f, 1<<20)}
+	h := sh.New()
+	idx := 10
+	apply := func(t structs.MessageType, req any) {
+		idx++
+		buf, err := structs.Encode(t, req)
+		if err != nil {
+			fatal("encode: %v", err)
+		}
+		if _, raw, err := h.ApplyRaw(buf, uint64(idx)); err != nil {
+			fatal("apply: %v", err)
+		} else if e, ok := raw.(error); ok {
+			fatal("apply: %v", e)
+		}
+	}
+	node := func(i int) string { return fmt.Sprintf("big%05d", i) }
+	reg := func(i int, addr, status string) *structs.RegisterRequest {
+		return &structs.RegisterRequest{Datacenter: "dc1", Node: node(i), Address: addr,
+			Service: &structs.NodeService{ID: "b", Service: "big", Port: 1, Tags: []string{"t1"}},
+			Checks: structs.HealthChecks{
+				&structs.HealthCheck{Node: node(i), CheckID: "cn", Name: "cn", Status: api.HealthPassing},
+				&structs.HealthCheck{Node: node(i), CheckID: "cb", Name: "cb", Status: status, ServiceID: "b"}}}
+	}
+	for i := 1; i <= n; i++ {
+		apply(structs.RegisterRequestType, reg(i, "a1", api.HealthPassing))
+	}
+	qs := []query{
+		{M{"q": "health", "name": "big"}, func(ws memdb.WatchSet, s *state.Store) (uint64, any, error) {
+			idx, l, err := s.CheckServiceNodes(ws, "big", nil, "")
+			return idx, sh.Digest(sh.SpewString(l)), err
+		}},
+		{M{"q": "health-tag", "name": "big"}, func(ws memdb.WatchSet, s *state.Store) (uint64, any, error) {
+			idx, l, err := s.CheckServiceTagNodes(ws, "big", []string{"t1"}, nil, "")
+			return idx, sh.Digest(sh.SpewString(l)), err
+		}},
+		{M{"q": "service-nodes", "name": "big"}, func(ws memdb.WatchSet, s *state.Store) (uint64, any, error) {
+			idx, l, err := s.ServiceNodes(ws, "big", nil, "")
+			return idx, sh.Digest(sh.SpewString(l)), err
+		}},
+		{M{"q": "service-tag-nodes", "name": "big"}, func(ws memdb.WatchSet, s *state.Store) (uint64, any, error) {
+			idx, l, err := s.ServiceTagNodes(ws, "big", []string{"t1"}, nil, "")
+			return idx, sh.Digest(sh.SpewString(l)), err
+		}},
+		{M{"q": "service-checks", "name": "big"}, func(ws memdb.WatchSet, s *state.Store) (uint64, any, error) {
+			idx, l, err := s.ServiceChecks(ws, "big", nil, "")
+			return idx, sh.Digest(sh.SpewString(l)), err
+		}},
+		{M{"q": "checks-in-state", "status": "critical"}, func(ws memdb.WatchSet, s *state.Store) (uint64, any, error) {
+			idx, l, err := s.ChecksInState(ws, api.HealthCritical, nil, "")
+			return idx, sh.Digest(sh.SpewString(l)), err
+		}},
+		{M{"q": "service-dump"}, func(ws memdb.WatchSet, s *state.Store) (uint64, any, error) {
+			idx, l, err := s.ServiceDump(ws, "", false, nil, "")
+			return idx, sh.Digest(sh.SpewString(l)), err
+		}},
+		{M{"q": "node-dump"}, func(ws memdb.WatchSet, s *state.Store) (uint64, any, error) {
+			idx, l, err := s.NodeDump(ws, nil, "")
+			return idx, sh.Digest(sh.SpewString(l)), err
+		}},
+	}
+	k := 0
+	observeStep := func(desc string, t structs.MessageType, req any) {
+		before := observe(h.Store(), qs)
+		apply(t, req)
+		after := observe(h.Store(), qs)
+		ob := []M{}
+		for j, q := range qs {
+			fd := fired(before[j])
+			if before[j].idx != after[j].idx || before[j].res != after[j].res || fd {
+				ob = append(ob, M{"q": qname(q.q), "fam": str(q.q["q"]), "i0": before[j].idx, "r0": before[j].res, "i1": after[j].idx, "r1": after[j].res, "fired": fd})
+			}
+		}
+		rec.emit(M{"cmd": M{"t": "scale", "idx": idx, "what": desc}, "nomodel": true, "obs": ob, "reap": false, "h": -1, "i": k, "desc": desc})
+		k++
+	}
+	targets := []int{n, n - 40, n/2 + 1, 1}
+	for _, i := range targets {
+		observeStep(fmt.Sprintf("scale(%d): check of instance %d goes critical", n, i), structs.RegisterRequestType, reg(i, "a1", api.HealthCritical))
+		observeStep(fmt.Sprintf("scale(%d): node of instance %d changes its address", n, i), structs.RegisterRequestType, reg(i, "a2", api.HealthCritical))
+		observeStep(fmt.Sprintf("scale(%d): check of instance %d is deregistered", n, i), structs.DeregisterRequestType,
+			&structs.DeregisterRequest{Datacenter: "dc1", Node: node(i), CheckID: "cb"})
+		observeStep(fmt.Sprintf("scale(%d): instance %d is deregistered", n, i), structs.DeregisterRequestType,
+			&structs.DeregisterRequest{Datacenter: "dc1", Node: node(i), ServiceID: "b"})
+	}
+	rec.w.Flush()
+	fmt.Printf("{\"behaviours\":1,\"events\":%d,\"nq\":%d}\n", rec.events, len(qs))
+}
+
 func main() {
 	if len(os.Args) < 2 {
 		fatal("usage: h-catidx replay|random ...")
@@ -435,6 +533,8 @@ func main() {
 		replay(*in, *out)
 	case "random":
 		random(*seed, *n, *length, *out)
+	case "scale":
+		scale(*n, *out)
 	default:
 		fatal("unknown mode %s", os.Args[1])
 	}
